@@ -259,8 +259,10 @@ def eval_z2s(desc):
             ok = 0
     cols = []
     for idx in log:
-        if not (isinstance(idx, tuple) and len(idx) == 3 and isinstance(idx[0], slice)):
+        if not (isinstance(idx, tuple) and len(idx) == 3):
             raise ValueError(f"unexpected read {idx!r} in z2s_kernel")
+        if not isinstance(idx[0], slice) and not 0 <= int(idx[0]) < N:  # a single level of the column, read by number
+            ok = 0
         cols.append((0, int(idx[1]), int(idx[2])))
     if any(outside((1, jn, im), t) for t in cols):
         ok = 0
